@@ -109,6 +109,76 @@ macro_rules! twin_call_concrete {
     }};
 }
 
+/// f32/f64 twins, stepped change to ratio 0.0199 (1/ratio = 50.25...), alternating 0/1 input,
+/// two calls; outputs agree within 16 f32 epsilons of the peak (1.0) and counts are equal.
+macro_rules! far_ffo {
+    ($nd:ident, $deg:expr) => {{
+        let mut a = FastFixedOut::<f32>::new(1.0, 64.0, $deg, 2, 1).unwrap();
+        let mut b = FastFixedOut::<f64>::new(1.0, 64.0, $deg, 2, 1).unwrap();
+        check!(a.set_resample_ratio(0.0199, false).is_ok() && b.set_resample_ratio(0.0199, false).is_ok(), "C17.control_setter[base]");
+        let mut xa = [0.0f32; 128];
+        let mut xb = [0.0f64; 128];
+        let mut i = 0;
+        while i < 128 { if i % 2 == 1 { xa[i] = 1.0; xb[i] = 1.0; } i += 1; }
+        let mut close = true;
+        let mut k = 0;
+        while k < 2 {
+            let n = b.input_frames_next();
+            check!(n == a.input_frames_next(), "C17.control_getters[base]");
+            $crate::fit!($nd, n <= 128, "C17.demand_fits_scenario_bound[base]");
+            let mut oa = [0.0f32; 2];
+            let mut ob = [0.0f64; 2];
+            let ra = a.process_into_buffer(&[&xa[..n]], &mut [&mut oa[..]], None);
+            let rb = b.process_into_buffer(&[&xb[..n]], &mut [&mut ob[..]], None);
+            check!(matches!((&ra, &rb), (Ok(p), Ok(q)) if p == q), "C17.control_counts[base]");
+            let tol = 16.0 * (f32::EPSILON as f64);
+            let d0 = (oa[0] as f64) - ob[0];
+            let d1 = (oa[1] as f64) - ob[1];
+            if !(d0 <= tol && d0 >= -tol && d1 <= tol && d1 >= -tol) { close = false; }
+            k += 1;
+        }
+        check!(close, "C17.values_close_far_position[base]");
+        forget(a); forget(b);
+    }};
+}
+macro_rules! far_ffi {
+    ($nd:ident, $deg:expr) => {{
+        let mut a = FastFixedIn::<f32>::new(1.0, 64.0, $deg, 120, 1).unwrap();
+        let mut b = FastFixedIn::<f64>::new(1.0, 64.0, $deg, 120, 1).unwrap();
+        check!(a.set_resample_ratio(0.0199, false).is_ok() && b.set_resample_ratio(0.0199, false).is_ok(), "C17.control_setter[base]");
+        let mut xa = [0.0f32; 120];
+        let mut xb = [0.0f64; 120];
+        let mut i = 0;
+        while i < 120 { if i % 2 == 1 { xa[i] = 1.0; xb[i] = 1.0; } i += 1; }
+        let mut close = true;
+        let mut seen = 0usize;
+        let mut k = 0;
+        while k < 2 {
+            let no = b.output_frames_next();
+            check!(no == a.output_frames_next(), "C17.control_getters[base]");
+            $crate::fit!($nd, no <= 16, "C17.demand_fits_scenario_bound[base]");
+            let mut oa = [0.0f32; 16];
+            let mut ob = [0.0f64; 16];
+            let ra = a.process_into_buffer(&[&xa[..]], &mut [&mut oa[..]], None);
+            let rb = b.process_into_buffer(&[&xb[..]], &mut [&mut ob[..]], None);
+            check!(matches!((&ra, &rb), (Ok(p), Ok(q)) if p == q), "C17.control_counts[base]");
+            let tol = 16.0 * (f32::EPSILON as f64);
+            let cnt = match &rb { Ok((_, c)) => *c, Err(_) => 0 };
+            unroll32!(j, 16, {
+                if j < cnt {
+                    let d = (oa[j] as f64) - ob[j];
+                    if !(d <= tol && d >= -tol) { close = false; }
+                    seen += 1;
+                }
+            });
+            k += 1;
+        }
+        check!(close, "C17.values_close_far_position[base]");
+        check!(seen >= 2, "C17.harness_observed_enough_frames[base]");
+        forget(a); forget(b);
+    }};
+}
+
 harnesses! {
     // ---- quick: control decisions for every f64 (no processing call)
     #[kani::unwind(6)]
@@ -342,6 +412,26 @@ harnesses! {
         }
         forget(a); forget(b); forget(c); forget(d);
     }
+
+    // ---- values far from the start of the buffer: the fractional position handed to the f32
+    // polynomial must be as exact as the f64 one (computed before the conversion to T). Low ratio,
+    // so that each output frame advances ~50 input frames; alternating 0/1 input (|slope| = 1).
+    #[kani::unwind(140)]
+    fn c17_ffo_linear_far_position(nd) { far_ffo!(nd, PolynomialDegree::Linear); }
+    #[kani::unwind(140)]
+    fn c17_ffo_cubic_far_position(nd) { far_ffo!(nd, PolynomialDegree::Cubic); }
+    #[kani::unwind(140)]
+    fn c17_ffi_linear_far_position(nd) { far_ffi!(nd, PolynomialDegree::Linear); }
+    #[kani::unwind(140)]
+    fn c17_ffi_septic_far_position(nd) { far_ffi!(nd, PolynomialDegree::Septic); }
+    #[kani::unwind(140)]
+    fn c17_ffo_quintic_far_position(nd) { far_ffo!(nd, PolynomialDegree::Quintic); }
+    #[kani::unwind(140)]
+    fn c17_ffo_septic_far_position(nd) { far_ffo!(nd, PolynomialDegree::Septic); }
+    #[kani::unwind(140)]
+    fn c17_ffi_cubic_far_position(nd) { far_ffi!(nd, PolynomialDegree::Cubic); }
+    #[kani::unwind(140)]
+    fn c17_ffi_quintic_far_position(nd) { far_ffi!(nd, PolynomialDegree::Quintic); }
 
     // vacuity witness (must FAIL): different chunk sizes
     #[kani::unwind(10)]
